@@ -643,7 +643,14 @@ def run_dtype_change(ctx):
                 ran = odl.uniform_discr(op0.range.min_pt, op0.range.max_pt, rshape, dtype=rdt)
                 op = odl.ResizingOperator(dom, ran, **kw)
             else:
-                op = odl.ResizingOperator(dom, ran_shp=rshape, discr_kwargs={'dtype': rdt}, **kw)
+                dk = {'dtype': rdt, 'nodes_on_bdry': False}
+                dk_before = dict(dk)
+                op = odl.ResizingOperator(dom, ran_shp=rshape, discr_kwargs=dk, **kw)
+                # the caller's dictionary is the caller's: unchanged, and a second operator built with it is the same operator
+                if dk != dk_before:
+                    ctx.violation('ResizingOperator', 'dtype-change;' + cfg, 'caller-argument-modified', before=str(dk_before), after=str(dk))
+                elif odl.ResizingOperator(dom, ran_shp=rshape, discr_kwargs=dk, **kw).range != op.range:
+                    ctx.violation('ResizingOperator', 'dtype-change;' + cfg, 'second-construction-with-the-same-arguments-differs')
             if np.dtype(op.range.dtype) != np.dtype(rdt):
                 ctx.violation('ResizingOperator', 'dtype-change;' + cfg, 'range-dtype')
                 continue
